@@ -95,15 +95,16 @@ class Node:
         return None
 
 
-def build(cx):
+def build(cx, nnamed):
     root = Node(cx, "r", "", None, False)
     nodes = [root]
     pool = ["a", "a-b"]
     nroot = cx.choose("nroot", 1, cx.p("width"))
 
     def grow(parent, key, base, depth):
-        # only the first entry of the root may have entries below it unless the tier says otherwise
-        wide = cx.p("width") if (key == "0" or cx.p("all_dirs")) else 0
+        # only the first entry of the root may have entries below it unless the tier says otherwise; with two named paths
+        # the second entry (whose name starts with the first one's name without being inside it) may have one
+        wide = cx.p("width") if (key == "0" or cx.p("all_dirs")) else (1 if nnamed == 2 else 0)
         nk = cx.choose("nkids_" + key, 0, wide) if (depth < cx.p("depth") and wide) else 0
         n = Node(cx, key, base, parent, nk == 0)
         parent.children.append(n)
@@ -132,10 +133,12 @@ def ob_smart_add(cx):
     real_os = cx.real("os")
     inv = cx.real("bzrformats.inventory")
     errors = cx.real("breezy.errors")
-    root, nodes = build(cx)
     # which paths the user names (<= 2), in which order
+    nnamed = cx.choose("nnamed", 0, 2)
+    root, nodes = build(cx, nnamed)
     cand = nodes[1:]
-    nnamed = cx.choose("nnamed", 0, min(2, len(cand)))
+    if nnamed > len(cand):
+        cx.assume(False)
     named = []
     for k in range(nnamed):
         n = cand[cx.choose("named%d" % k, 0, len(cand) - 1)]
@@ -360,11 +363,12 @@ def ob_smart_add(cx):
 
 def obligations(tier):
     q = tier == "quick"
-    p = dict(width=2, depth=2, pairs_full=False, all_dirs=not q)
+    p = dict(width=2, depth=2, pairs_full=not q, all_dirs=False)
     return [Ob("smart_add", ob_smart_add, [IT], p, 900 if q else 7200, 3 if q else 1,
                ["added", "ignored_skipped", "parent_added", "recursed", "nothing", "refused"],
-               bounds=("all directories may have entries; " if p["all_dirs"] else "only the first entry of the root may be a "
-                       "non-empty directory; ") +
+               bounds=("all directories may have entries; " if p["all_dirs"] else "the root has <= 2 entries 'a' and 'a-b' (a name "
+                       "that starts with the other without being inside it); 'a' may hold <= 2 entries, 'a-b' one entry when "
+                       "two paths are named; ") +
                       "trees of depth <= %d with <= %d entries per directory (+ optionally a control directory), "
                       "<= 2 named paths in any order or none (whole tree), recursion on/off; per-node facts symbolic%s" %
                       (p["depth"], p["width"], "" if p["pairs_full"] else "; with two named paths: no control directory and no "
